@@ -609,7 +609,13 @@ Proof.
                  ((exists n, r = PCommitted n \/ r = PAlready n) -> hub_holds H h' (r_path e) (r_sha e) = true)).
   { intros x [= <- <-] Hx. split; [exact HI|split; [reflexivity|split; [auto|]]].
     intros [n [E|E]]; destruct (Hx n); congruence. }
-  destruct f as [m lost rf|m mark lost2| | |d]; try (intro E; apply (Triv _ E); split; discriminate).
+  destruct f as [m lost rf|m mark lost2| |reached| |d]; try (intro E; apply (Triv _ E); split; discriminate).
+  3:{ destruct reached; [|intro E; apply (Triv _ E); split; discriminate].
+      rewrite Sb, Zb.
+      destruct (receive H h (r_path e) (H b) (blen b) (r_sent e) body false) as [h1 r1] eqn:ER.
+      destruct (receive_spec o h (r_path e) b _ _ _ _ _ HI Ob ER) as (A & B & C & D).
+      intros [= <- <-]. split; [exact A|split; [exact B|split; [exact C|]]].
+      intros [n [X|X]]; discriminate. }
   - rewrite Sb, Zb.
     destruct (receive H h (r_path e) (H b) (blen b) (r_sent e) (apply_mut m body) rf) as [h1 r1] eqn:ER.
     destruct (receive_spec o h (r_path e) b _ _ _ _ _ HI Ob ER) as (A & B & C & D).
@@ -692,7 +698,10 @@ Proof.
     - intro. apply RT. auto. }
   destruct r as [n|n|n|d| | |].
   7:{ (* PErr *)
-      eapply mok_bind; [eapply mok_weaken; [apply skip_if_vanished_ok| |]; cbn; [intros w [X _]; exact X|intros aa w X; exact X]|].
+      eapply mok_bind with (Q := fun _ w => K o fl w).
+      { destruct (exists_errs f).
+        - eapply mok_weaken; [apply (mok_ret' _ (K o fl))| |]; cbn; [intros w [X _]; exact X|auto].
+        - eapply mok_weaken; [apply skip_if_vanished_ok| |]; cbn; [intros w [X _]; exact X|intros aa w X; exact X]. }
       intro sk. destruct sk; [apply RT; auto|apply fail_ok]. }
   all: destruct (validate e _); cbn [negb]; try exact FAIL.
   - apply (SYNC n). left; reflexivity.
@@ -809,14 +818,14 @@ Proof.
       | [] => ret tt
       | _ :: _ =>
           bind getc (fun c0 => bind tick (fun _ =>
-            match c_rec c0 with
+            match eff_rfault (c_rec c0) (w_hub w) (map r_path pending) with
             | RDropBefore => ret tt
             | rf =>
                 bind (lift (fun w1 => let '(h', res) := hub_reconcile (w_hub w1) (map (fun r0 => (r_path r0, r_sha r0)) pending) in
                                       (w_set_hub w1 h', res)))
                   (fun res =>
                      match rf with
-                     | RLostReply => ret tt
+                     | RLostReply | RIndexFail => ret tt
                      | _ =>
                          bind (forM (fun e => match class_of res (r_path e) with
                                               | Some RPresent => bind tick (fun _ => bind (lift (mark_synced H (r_path e))) (fun _ => ret tt))
@@ -839,7 +848,7 @@ Proof.
                                (w_set_hub w1 h', res)))
               (fun res =>
                  match rf with
-                 | RLostReply => ret tt
+                 | RLostReply | RIndexFail => ret tt
                  | _ =>
                      bind (forM (fun e => match class_of res (r_path e) with
                                           | Some RPresent => bind tick (fun _ => bind (lift (mark_synced H (r_path e))) (fun _ => ret tt))
@@ -871,7 +880,7 @@ Proof.
           assert (b' = b) by congruence. subst b'.
           rewrite Sb, <- Sb', <- Px. apply D'; [|exact Cx].
           rewrite map_map. cbn. apply in_map_iff. exists e'. auto. }
-      intro res. destruct rf; [|congruence|apply RT; intros w1 [X _]; exact X].
+      intro res. destruct rf; [|congruence|apply RT; intros w1 [X _]; exact X|apply RT; intros w1 [X _]; exact X].
       (* the three loops *)
       eapply mok_bind with (Q := fun _ w1 => K o fl w1).
       { (* present: advance without sending a byte *)
@@ -897,10 +906,11 @@ Proof.
       intro. apply mok_forM. intros e Hin.
       destruct (class_of res (r_path e)) as [[| |d]|] eqn:EC; try apply mok_ret'.
       apply send_one_ok. rewrite Forall_forall in Rp. auto. }
-    destruct (c_rec c0) eqn:ERF.
+    destruct (eff_rfault (c_rec c0) (w_hub w) (map r_path pending)) eqn:ERF.
     - refine (REC ROk _). discriminate.
     - apply RT. auto.
-    - refine (REC RLostReply _). discriminate. }
+    - refine (REC RLostReply _). discriminate.
+    - refine (REC RIndexFail _). discriminate. }
   exact (G _ _ _ _ _ HK0 E).
 Qed.
 
@@ -1018,7 +1028,8 @@ Qed.
 
 Lemma put_file_removed f h e body : h_removed (fst (put_file H f h e body)) = h_removed h.
 Proof.
-  destruct f as [m lost rf|m mark lost2| | |d]; cbn; try reflexivity.
+  destruct f as [m lost rf|m mark lost2| |reached| |d]; cbn; try reflexivity.
+  3:{ destruct reached; [|reflexivity]. cbn. apply receive_removed. }
   - pose proof (receive_removed h (r_path e) (r_sha e) (r_size e) (r_sent e) (apply_mut m body) rf) as X.
     destruct (receive H h _ _ _ _ _ rf). exact X.
   - pose proof (receive_removed h (r_path e) (r_sha e) (r_size e) (r_sent e) (apply_mut m body) false) as X1.
@@ -1460,7 +1471,10 @@ Proof.
   7:{ (* PErr *)
       unfold skip_if_vanished.
       eapply qok_bind with (Q := fun (sk : bool) (l : list row) => if sk then FA rows0 p (Good a) l else FA rows0 p (Flying a) l).
-      { eapply qok_bind; [apply qok_getw|]. intro w1. cbn beta. destruct (w_files w1 p).
+      { destruct (exists_errs f).
+        { eapply qok_conseq; [apply (qok_ret_eq false (FA rows0 p (Flying a)))|auto|].
+          cbn. intros sk l [-> X]. exact X. }
+        eapply qok_bind; [apply qok_getw|]. intro w1. cbn beta. destruct (w_files w1 p).
         - eapply qok_conseq; [apply (qok_ret_eq false (FA rows0 p (Flying a)))|auto|].
           cbn. intros sk l [-> X]. exact X.
         - eapply qok_bind; [apply qok_tick|]. intro.
@@ -1680,7 +1694,7 @@ Lemma body_q maxa k rows1 :
 Proof.
   intros ND Hrows. unfold agent_body.
   eapply qok_bind; [apply qok_getw_eq|]. intro w0. cbn beta zeta.
-  apply qok_forall. intros rows [-> Ew]. rewrite Ew. clear w0 Ew.
+  apply qok_forall. intros rows [-> Ew]. rewrite Ew. clear Ew.
   set (L := pending_sorted rows1).
   assert (L_in : forall e, In e L -> In e rows1 /\ r_state e = Pending) by (intro e; apply in_pending_sorted).
   assert (L_todo : forall e, In e L -> TodoRow k e).
@@ -1704,7 +1718,7 @@ Proof.
   rewrite <- EL in *. clear EL e0 t0.
   eapply qok_bind; [apply qok_getc|]. intro c. cbn beta.
   eapply qok_bind; [apply qok_tick|]. intro.
-  apply qok_forall. intros rows [-> [_ Hrf]]. rewrite Hrf.
+  apply qok_forall. intros rows [-> [_ Hrf]]. rewrite Hrf. cbn [eff_rfault].
   set (Q := fun (res : list (N * rclass)) (l : list row) =>
               l = rows1 /\ forall e, In e L -> class_of res (r_path e) <> None).
   eapply qok_bind with (Q := Q).
@@ -1789,10 +1803,9 @@ Lemma agent_run_frn pt : mok R R (agent_run H pt) (fun _ w => R w).
 Proof.
   unfold agent_run, agent_body. frn; try apply send_one_frn;
     try (apply mark_synced_nodup; auto; fail); try (apply led_update_nodup; auto; fail).
-  - cbn [fst]. rewrite recover_paths. auto.
-  - cbn [fst]. apply discover_nodup. auto.
-  - match goal with |- context [hub_reconcile ?h ?es] => destruct (hub_reconcile h es); cbn; auto end.
-  - match goal with |- context [hub_reconcile ?h ?es] => destruct (hub_reconcile h es); cbn; auto end.
+  1: { cbn [fst]. rewrite recover_paths. auto. }
+  1: { cbn [fst]. apply discover_nodup. auto. }
+  all: match goal with |- context [hub_reconcile ?h ?es] => destruct (hub_reconcile h es); cbn; auto end.
 Qed.
 
 End NoDupFrame.
